@@ -171,6 +171,16 @@ bool Symmetrizer::checkSymmetry(const Operator &in)
         if (!OperatorPresets::n(i).commutes(*OP1)) return false;
     }
 
+    // Check that every creation operator changes the quantum number of OP1 by a
+    // state-independent amount, [OP1, c^+_i] = q_i c^+_i. Otherwise c^+_i would map
+    // one block of the partition into several blocks.
+    for(ParticleIndex i = 0; i < IndexSize; ++i) {
+        Operator cdag_i = OperatorPresets::c_dag(i);
+        Operator comm = OP1->getCommutator(cdag_i);
+        if (comm.isEmpty()) continue;
+        if (!(comm == cdag_i*comm.begin()->second)) return false;
+    }
+
     Operations.push_back(OP1);
     NSymmetries++;
     return true;
